@@ -242,8 +242,8 @@ Lemma handle_subscribe_inv2 s dup q tit mid tid name :
   Inv2 s -> InvR2 (handle_subscribe cfg s dup q tit mid tid name).
 Proof.
   intros HI. unfold handle_subscribe, new_obj. cbv zeta.
-  pose proof (new_topic_id_inv2 s HI) as Hs. destruct (new_topic_id cfg s) as [s' [i|]]; cbn [fst] in Hs;
-    inv2_auto.
+  pose proof (register_topic_inv2 s name HI) as Hs.
+  destruct (register_topic cfg s name) as [s' [i|]]; cbn [fst] in Hs; inv2_auto.
 Qed.
 
 Lemma bp_proceed_inv2 s g mid qos st data snpub :
